@@ -132,6 +132,36 @@ fn sx_tag(c: &ConcreteType) -> String {
     }
 }
 
+/// A runtime value for the model (`Codec.parseVal`); binaries resolved to bytes. `None` for values
+/// `value_to_instructions` cannot convert (refs, processes, resources).
+fn sx_val(v: &Value, consts: &[Constant], ex: &qverif::run::Exec) -> Option<String> {
+    Some(match v {
+        Value::Integer(i) => format!("(i {i})"),
+        Value::Binary(b) => {
+            let bytes = match b {
+                Binary::Constant(i) => match consts.get(*i) {
+                    Some(Constant::Binary(v)) => v.clone(),
+                    _ => return None,
+                },
+                Binary::Heap(i) => ex.get_heap_binary(*i)?.to_vec(),
+            };
+            if bytes.is_empty() { "(b)".to_string() } else { format!("(b {})", qverif::hex(&bytes)) }
+        }
+        Value::Tuple(id, fs) => {
+            let inner: Option<Vec<String>> = fs.iter().map(|f| sx_val(f, consts, ex)).collect();
+            let inner = inner?;
+            if inner.is_empty() { format!("(t {id})") } else { format!("(t {id} {})", inner.join(" ")) }
+        }
+        Value::Function(i, cs) => {
+            let inner: Option<Vec<String>> = cs.iter().map(|f| sx_val(f, consts, ex)).collect();
+            let inner = inner?;
+            if inner.is_empty() { format!("(f {i})") } else { format!("(f {i} {})", inner.join(" ")) }
+        }
+        Value::Builtin(i) => format!("(u {i})"),
+        Value::Reference(_) | Value::Process(..) | Value::Resource(..) => return None,
+    })
+}
+
 /// The run-time lookup tables of a program.
 #[derive(Clone)]
 struct Tables {
@@ -1010,10 +1040,53 @@ fn extract_entry(cx: &mut Ctx, src: &str, modules: &HashMap<Vec<String>, String>
         fi
     } else {
         cx.ev.hit(&format!("extract:captures-{}", caps.len().min(4)));
+        // model side first (the Rust call mutates `program`)
+        let before = program.to_bytecode(None);
+        let cap_sx: Option<Vec<String>> = caps.iter().map(|c| sx_val(c, &before.constants, &ex)).collect();
+        let model_ans = match &cap_sx {
+            Some(cs) => {
+                let t = Tables { compat: vec![], canon: vec![], fparam: vec![], bparam: vec![] };
+                let r1 = cx.model.ask(&sx_prog("A", &before, &t));
+                if r1.starts_with("ok") { Some(cx.model.ask(&format!("(inject {fi} {})", cs.join(" ")))) } else { Some(format!("model-parse:{r1}")) }
+            }
+            None => None,
+        };
         match qverif::catch(|| program.inject_function_captures(fi, (*caps).clone(), &ex)) {
-            Ok(i) => i,
+            Ok(i) => {
+                if let Some(ans) = model_ans {
+                    let instrs: Vec<String> = program.get_function(i).map(|f| f.instructions.iter().map(sx_instr).collect()).unwrap_or_default();
+                    let consts: Vec<String> = program
+                        .get_constants()
+                        .iter()
+                        .map(|c| match c {
+                            Constant::Integer(i) => format!("(i {i})"),
+                            Constant::Binary(b) if b.is_empty() => "(b)".to_string(),
+                            Constant::Binary(b) => format!("(b {})", qverif::hex(b)),
+                        })
+                        .collect();
+                    let expect = format!("ok g={i} fns={} instrs=({}) consts=({})", program.get_functions().len(), instrs.join(" "), consts.join(" "));
+                    cx.ev.hit("inject:model-compared");
+                    if caps.iter().any(|c| matches!(c, Value::Function(_, cs) if !cs.is_empty())) {
+                        cx.ev.hit("inject:nested-capturing-closure");
+                    }
+                    if ans != expect {
+                        cx.ev.violation(
+                            "path=entry kind=inject-differs-from-model",
+                            &format!("inject_function_captures({fi}, {} captures) differs from the model: impl `{}` model `{}`", caps.len(), clip(&expect), clip(&ans)),
+                            json!({"broken": "correspondence model<->impl on Program::inject_function_captures (C10.injectCaptures_prelude / InjectCapturesEquiv)", "source": src, "function": fi, "captures": cap_sx, "impl": expect, "model": ans}),
+                            false,
+                        );
+                    }
+                }
+                i
+            }
             Err(_) => {
                 cx.ev.hit("extract:inject-panic");
+                if let Some(ans) = model_ans
+                    && ans != "none"
+                {
+                    cx.ev.hit("inject:impl-panics-model-succeeds");
+                }
                 return None;
             }
         }
